@@ -223,7 +223,7 @@ def present(rng, reg, ids, style):
 
 
 def emit_script(rng, reg, policy, style="complete", shuffle=True, ids=None, calls="all",
-                max_calls=400, dump=True, callnext=True, budget=None):
+                max_calls=400, dump=True, callnext=True, budget=None, call_rng=None):
     """returns (lines, meta)"""
     n = len(reg.parents)
     ids = ids or make_ids(rng, n, policy)
@@ -255,18 +255,22 @@ def emit_script(rng, reg, policy, style="complete", shuffle=True, ids=None, call
         lines.append("dump")
     desc = descendants(reg.parents)
     ncalls = 0
+    if call_rng is not None:
+        rng = call_rng
     for m in reg.methods:
         doms = [desc[v] for v in m["vp"]]
         total = 1
         for d in doms:
             total *= len(d)
-        if calls == "all" and total <= max_calls:
+        if calls == "none":
+            tuples = []
+        elif calls == "all" and total <= max_calls:
             tuples = itertools.product(*doms)
         else:
             tuples = [tuple(rng.choice(d) for d in doms) for _ in range(min(max_calls, 64))]
         for t in tuples:
             # any alias id of the dynamic class
-            args = " ".join(str(ids[c][rng.randrange(len(ids[c]))]) for c in t)
+            args = " ".join(str(ids[c][int(rng.random() * len(ids[c]))]) for c in t)
             lines.append("call %d %s" % (m["key"], args))
             ncalls += 1
             if callnext and rng.random() < 0.25:
